@@ -238,3 +238,23 @@ package hotline
 
 //@ func (newscat *NewsCategoryListData15) Read(p []byte) (n int, err error)
 //@   cursor wire_NewsCat15 readOffset inv_NewsCat15
+
+// ---------------------------------------------------------------------------------
+// Access privileges: bit i counted from the most significant bit of byte 0
+
+//@ func (bits *AccessBitmap) IsSet(i int) (r bool)
+//@   requires bits != nil && 0 <= i && i < 64
+//@   ensures r == bit(bytes(bits), i)
+//@   nopanic
+
+//@ func (bits *AccessBitmap) Set(i int)
+//@   requires bits != nil && 0 <= i && i < 64
+//@   ensures bit(bytes(bits), i)
+//@   ensures forall(j, 0, 64, j != i ==> bit(bytes(bits), j) == old(bit(bytes(bits), j)))
+//@   nopanic
+
+//@ func (cc *ClientConn) Authorize(access int) (r bool)
+//@   requires cc != nil && 0 <= access && access < 64
+//@   ensures cc.Account == nil ==> !r
+//@   ensures cc.Account != nil ==> r == bit(bytes(cc.Account.Access), access)
+//@   nopanic
